@@ -50,6 +50,11 @@ MUTANTS = [
   "                hunk.remove.content.push(line);\n                header.remove_count -= 1;\n\n                there_was_a_non_context_line = true;", ["C01.hunk_wf"], ["C11"]),
  ("parser", "src/libpatch/patch/unified/parser.rs", "        if count == 0 {\n            line as isize\n        } else {", "        if false {\n            line as isize\n        } else {", ["C01.start_lines"], ["C11"]),
  ("parser", "src/libpatch/patch/unified/parser.rs", "hunk.add.content.reserve(std::cmp::min(header.add_count, input.len()));", "hunk.add.content.reserve(header.add_count);", ["parse_hunk.body"], []),
+ # parse_number_usize (verified body since the fourth seed round): an over-long number must be an error, not a panic
+ ("parser", "src/libpatch/patch/unified/parser.rs",
+  "    match usize::from_str(str) {\n        Ok(number) => Ok((input_, number)),\n        Err(_) => Err(ErrorBuilder::NumberTooBig(digits)),\n    }",
+  "    Ok((input_, usize::from_str(str).unwrap()))", ["parse_number_usize.body"], []),
+ ("parser", "src/libpatch/patch/unified/parser.rs", "    if digits.is_empty() {\n        return Err(ErrorBuilder::BadNumber(input));\n    }\n", "", ["C11.number"], []),
  # parse_hunk_line (verified body since the third seed round)
  ("parser", "src/libpatch/patch/unified/parser.rs", "Ok((take_line_incl(input)?.0, (hunk_line_type, &line[..line.len() - 1]))),",
   "Ok((take_line_incl(input)?.0, (hunk_line_type, &line[..line.len() - 2]))),", ["C01.hunk_line", "parse_hunk_line.body"], []),
